@@ -89,3 +89,12 @@ Definition modelled_ante_chain : list bytes :=
 Theorem ante_chain_as_modelled : GenApp.ante_decorators = modelled_ante_chain.
 Proof. vm_compute. reflexivity. Qed.
 Print Assumptions ante_chain_as_modelled.
+
+(** the burn end-blocker is the last one that can move coins: every module whose end-blocker runs after it is a custom
+    module whose EndBlock is the bare `return []abci.ValidatorUpdate{}` (both facts regenerated from app/app.go and
+    x/*/module.go) — so nothing can put coins on the burn address between the burn and the end of the block *)
+Definition after_burn_harmless : bool :=
+  forallb (fun m => existsb (bytes_eqb m) GenApp.trivial_end_blocks) GenApp.end_blockers_after_burn.
+Theorem burn_is_last_coin_mover : GenApp.burn_in_end_blockers = true /\ after_burn_harmless = true.
+Proof. vm_compute. split; reflexivity. Qed.
+Print Assumptions burn_is_last_coin_mover.
